@@ -113,6 +113,22 @@ pub fn run(case: &Value, ctx: &Ctx) -> Outcome {
                     || json!({"variant": label, "code": r.code, "stderr": r.stderr}));
             }
         }
+        // ... and the same slow delivery when the PATH is a named pipe (`sfs create <(producer)`)
+        if (vi == 1 || vi == 5 || vi == 6) && id % 4 == 1 {
+            let mut args = base_args.clone();
+            args.extend(["--threads".into(), "2".into()]);
+            let a: Vec<&str> = args.iter().map(|s| s.as_str()).collect();
+            let fifo = format!("{}/files/c12_{id:016x}_{vi}.fifo", ctx.work);
+            if let Some(r) = cli::sfs_fifo(ctx, &a, bytes, 1 + (id % 2) as usize, &fifo) {
+                runs += 1;
+                if let Some((c, s)) = &reference {
+                    out.check(*c == r.code && *s == r.stdout, || format!("container/slow-named-pipe/{label}"),
+                        || json!({"variant": label, "code": r.code, "stderr": r.stderr}));
+                }
+            } else {
+                out.tag("fifo-unavailable");
+            }
+        }
         let _ = std::fs::remove_file(&path);
     }
     out.tag(format!("runs:{runs}"));
